@@ -297,6 +297,14 @@ func genRepo(c *ctx, out string) {
 		return true
 	})
 	bgLoadLocked := ucLock != token.NoPos && ucLock < firstCallPos(uc, "loadCRL")
+	// closed entries are skipped by updateCRL and refused by loadActively
+	skipU := hasCond(uc, "entry.Closed")
+	skipL := hasCond(la, "entry.Closed")
+	if skipU != skipL {
+		fail("%s: updateCRL and loadActively disagree on closed entries", c.pos(uc))
+	}
+	l.p("/-- crlrepository.go:updateCRL / loadActively — entries of a closed repository are neither refreshed nor loaded. -/")
+	l.p("def closedEntriesSkipped : Bool := %v", skipU)
 	l.p("/-- crlrepository.go:checkCrl — Closed/Loaded tests and the store lookup happen under the entry read lock (held until return). -/")
 	l.p("def lookupHoldsReadLock : Bool := %v", lookupLocked)
 	l.p("/-- crlrepository.go:updateEntry, loadActively, updateCRL — every store swap happens under the entry write lock. -/")
